@@ -137,6 +137,21 @@ def obligations(tier):
                   bounds='3 reader outcomes x action (un)registered x 4 handler outcomes x sync/deferred dispatcher x 4 paths',
                   claim='do_post never raises; (200, proper response) iff read, registered and handled, else 4xx/5xx with a fault built '
                         'from a Fault; rejected before dispatch => no handler reached'))
+    obs.append(Ob('C13.middleware.post.second_level', 'harness.C13', 'middleware_post_second_level', timeout=t,
+                  functions=MIDDLE + ['sdc11073.provider.providerimpl._PathElementDispatcher.on_post',
+                                      'sdc11073.dispatch.pathelementregistry.PathElementRegistry.get_instance'],
+                  stubs=[S_XML + '; the factory stub hands every fault reason text to real lxml, which refuses what XML cannot hold',
+                         S_SVC, S_HDR],
+                  bounds='12 second path elements (registered, unknown, empty, C0/C1 control characters, DEL, 0xff, markup) x 3 tails '
+                         'x sync/deferred dispatcher',
+                  claim='do_post never raises; 200 iff the element is registered, else 4xx/5xx with a fault built; the reason is '
+                        'one short latin-1 line'))
+    obs.append(Ob('C13.post.component_raises', 'harness.C13', 'handler_component_raises', timeout=t, functions=HANDLER,
+                  stubs=[S_STREAM, S_HDR, S_SOCK, 'registered component = stub raising the chosen exception'],
+                  bounds='8 exception messages (empty, multi-line, CRLF + header text, 5000 chars, non-latin-1, NUL, a traceback) x 5 '
+                         'exception types x 3 Accept-Encoding x 3 chunk sizes',
+                  claim='one 5xx status line that is a single line of <= 200 characters, headers terminated, body framed as '
+                        'announced; no exception leaves do_POST'))
     obs.append(Ob('C13.middleware.get', 'harness.C13', 'middleware_get', timeout=t, functions=MIDDLE, stubs=[S_XML, S_SVC, S_HDR],
                   bounds='2 handler outcomes x 8 paths', claim='do_get never raises; 200 iff a handler is registered for the '
                   'sub-path and returned, else 5xx; unknown sub-path reaches no handler'))
